@@ -257,6 +257,10 @@ def check_vm(crate, rep, cfg):
     rep.add("C04.VM", "C04.VM:super:topmost-matching-block", len(rp) == 1, vm.where(rp[0][0]) if rp else vm.where(0), "super() finds its lineage with `blocks.iter().rposition(..)`: "
             "the topmost active entry of the current block name" + ("" if len(rp) == 1 else " — VIOLATED"))
     idxs = [(bb, t) for bb, t in vm.calls(sorted(sreg)) if callee_def(t) == "std::ops::Index::index" and (t["atys"][0] if t["atys"] else "").lstrip("&").startswith("std::vec::Vec<parsing::instructions::Chunk>")]
+    if not idxs:
+        # `lineage.get(level + 1)` with the None edge raising the error
+        idxs = [(bb, t) for bb, t in vm.calls(sorted(sreg)) if (callee_def(t).endswith("<impl [T]>::get") or callee_def(t).endswith("Vec::<T, A>::get"))
+                and "parsing::instructions::Chunk" in (t["atys"][0] if t["atys"] else "")]
     ok = len(idxs) == 1
     if ok:
         il = tr.operand(idxs[0][1]["args"][1])
